@@ -7,24 +7,24 @@ CONSTANTS
   MaxKps = 40
   MaxEpoch = 30
   PathRequiredChoices = {FALSE, TRUE}
-  EncChoices = {FALSE, TRUE}
+  EncChoices = {FALSE}
   ByValueMax = 2
   AllowConflicts = FALSE
-  Features = {"apps", "storage", "detached"}
+  Features = {"observer", "apps", "gce", "badkp", "custom"}
   Window = 1024
   Retention = 3
   BurstSizes = {1, 2}
   PskIds = {}
   PskValues = {"none"}
-  JitterChoices = {99999}
+  JitterChoices = {99999, 0, 1, 2, 1000}
   Deviations = {"F12", "F14"}
   MaxApps = 30
   Depth = 60
   BootSize = 0
-  WProgress = 50
-  WPropose = 20
-  WCommit = 30
-  WApp = 15
-  WStore = 30
+  WProgress = 60
+  WPropose = 30
+  WCommit = 35
+  WApp = 10
+  WStore = 0
 INVARIANT EmitAtDepth
 CHECK_DEADLOCK FALSE
